@@ -170,6 +170,26 @@ func checkArrivalOrderIndependence(c *core.Ctx, rule string, only ...string) int
 	} else {
 		und("snps.writeOutput")
 	}
+	// snps.aggregateWriteOutput: an aggregating consumer takes the records in arrival order; its table must not depend on
+	// it - also when two records carry the same name (they are two sequences) and their SNP lists differ
+	if fn, lt := c.LookupFunc("pkg/snps", "aggregateWriteOutput"), namedType(c, "pkg/snps", "snpLine"); fn != nil && lt != nil {
+		cons = append(cons, consumer{name: "snps.aggregateWriteOutput", pos: fn.Pos(), run: func(order []int) (string, error) {
+			var feed []eval.Value
+			for _, i := range order {
+				r := absValue(lt, "l", eval.K(0)).(*eval.StructVal)
+				r.F["queryname"] = eval.S(padName(fmt.Sprintf("q%d", i%3), i)) // q0 q1 q2 q0 q1 ...: names repeat
+				r.F["idx"] = eval.K(int64(i))
+				r.F["snps"] = eval.NewSlice(eval.S(fmt.Sprintf("A%dT", 1+i%2)), eval.S(fmt.Sprintf("C%dG", 10+i)))
+				feed = append(feed, r)
+			}
+			ev := newEval(c)
+			out, errs, err := callWriter(c, ev, fn, lt, feed, map[string]eval.Value{"threshold": eval.FConst(0.3)})
+			if err == nil && len(errs.Sent) > 0 {
+				err = fmt.Errorf("error reported")
+			}
+			return out, err
+		}})
+	}
 	// updown.writeOutput
 	if fn, lt := c.LookupFunc("pkg/updown", "writeOutput"), namedType(c, "pkg/updown", "updownLine"); fn != nil && lt != nil {
 		cons = append(cons, consumer{name: "updown.writeOutput", pos: fn.Pos(), run: func(order []int) (string, error) {
